@@ -34,7 +34,7 @@ THEOREMS = {
     "C04": ["C04_frame_total", "C04_stream_total", "C04_frame_progress", "C04_decoded_frame_size", "C16_no_fabricated_frame"],
     "C05": BASE_THEOREMS + ["C05_flipped_frame_rejected", "C05_truncated_frame_is_error", "C05_reject_block_size_code_0", "C05_reject_rate_code_15", "C05_reject_reserved_subframe_type", "C05_reject_coding_method", "C05_reject_negative_shift", "crc16_single_bit", "crc16_append", "crc8_append"],
     "C14": ["C14_interrupted_file", "C14_interrupted_stream", "C05_truncated_frame_is_error", "C03_decoder_follows_format"],
-    "C16": ["C16_encoder_frames_scanned", "C16_encoder_frames_self_describing", "ex_encoder_scanned", "C16_no_fabricated_frame", "C16_syncless_garbage_costs_no_frame", "C16_self_describing"],
+    "C16": ["C16_encoder_stream_read_back", "ex_stream_read_back", "C16_encoder_frames_scanned", "C16_encoder_frames_self_describing", "ex_encoder_scanned", "C16_no_fabricated_frame", "C16_syncless_garbage_costs_no_frame", "C16_self_describing"],
     "C17": ["C17_parse_inverts_write", "C17_write_inverts_parse", "C17_subframe_write_inverts_parse", "C17_subframe_expands_to_block_size", "C17_parsed_frames_are_well_formed", "C17_parsed_subframes_expand_to_block_size", "ex_frame_wf", "ex_frame_roundtrip"],
     "C19": ["C19_encoder_frame_bound", "C19_encoder_constant_block", "C19_encoder_subframe_bound", "C19_subframe_bound", "C19_frame_bound", "C17_parse_inverts_write"],
 }
